@@ -108,10 +108,23 @@ SPEC_M.append(("ledger.protocol", "HSM2ProtocolLedger", [
     "_advance_blockchain", "_update_ancestor_block"]))
 SPEC_M.append(("ledger.protocol", "HSM2ProtocolLedger", [
     "_check_version", "_wait_and_reconnect", "_handle_bootloader", "initialize_device"]))
+SPEC_M.append(("ledger.hsm2dongle_cmds.signer_heartbeat", "HSM2SignerHeartbeat", ["send", "run"]))
+SPEC_M.append(("ledger.hsm2dongle_cmds.ui_heartbeat", "HSM2UIHeartbeat", ["send", "run"]))
+SPEC_M.append(("ledger.hsm2dongle", "HSM2Dongle", ["get_signer_heartbeat", "get_ui_heartbeat"]))
+SPEC_M.append(("ledger.protocol", "HSM2ProtocolLedger", ["_signer_heartbeat", "_ui_heartbeat"]))
+# instance attributes that __init__ sets to fixed objects of another class (command classes)
+INSTANCE_ALIAS = {
+    ("HSM2SignerHeartbeat", "Offset"): ("ledger.hsm2dongle", "HSM2Dongle", "OFF"),
+    ("HSM2UIHeartbeat", "Offset"): ("ledger.hsm2dongle", "HSM2Dongle", "OFF"),
+    ("HSM2SignerHeartbeat", "ErrorResult"): ("ledger.hsm2dongle", "HSM2Dongle", "ErrorResult"),
+    ("HSM2UIHeartbeat", "ErrorResult"): ("ledger.hsm2dongle", "HSM2Dongle", "ErrorResult"),
+}
 SPEC_M.append(("ledger.protocol_v1", "HSM1ProtocolLedger", [
     "_error", "_translate_sign_error", "_get_pubkey", "_sign"]))
 # attributes of self that hold another translated object: (class, attribute) -> (module, class)
-ATTR_CLASS = {("HSM1ProtocolLedger", "hsm2dongle"): ("ledger.hsm2dongle", "HSM2Dongle"),
+ATTR_CLASS = {("HSM2SignerHeartbeat", "dongle"): ("ledger.hsm2dongle", "HSM2Dongle"),
+              ("HSM2UIHeartbeat", "dongle"): ("ledger.hsm2dongle", "HSM2Dongle"),
+              ("HSM1ProtocolLedger", "hsm2dongle"): ("ledger.hsm2dongle", "HSM2Dongle"),
               ("HSM1ProtocolLedger", "protocol_v2"): ("ledger.protocol", "HSM2ProtocolLedger"),
               ("HSM2ProtocolLedger", "hsm2dongle"): ("ledger.hsm2dongle", "HSM2Dongle"),
               ("HSM2ProtocolLedger", "pin"): ("ledger.pin", "FileBasedPin")}
@@ -547,6 +560,10 @@ class FuncTr:
             if h.type is None:
                 catch_all = True
             for t in tys:
+                if isinstance(t, ast.Attribute):
+                    o_ = self.chain_const(t)
+                    need(o_ is not NOTCONST and isinstance(o_, type), "handler type", h)
+                    t = ast.Name(id=o_.__name__)
                 need(isinstance(t, ast.Name), "handler type", h)
                 if t.id in ("Exception", "BaseException"):
                     catch_all = True
@@ -844,6 +861,15 @@ class FuncTr:
         if not (isinstance(cur, ast.Name) and cur.id == self.selfname and self.cls is not None and len(names) >= 1):
             return NOTCONST
         obj = self.cls
+        first = names[-1]
+        if (self.cls.__name__, first) in INSTANCE_ALIAS:
+            mod2, cname2, attr2 = INSTANCE_ALIAS[(self.cls.__name__, first)]
+            obj = getattr(getattr(module(mod2).mod, cname2), attr2)
+            names = names[:-1]
+        elif (self.cls.__name__, first) in ATTR_CLASS and len(names) >= 2:
+            mod2, cname2 = ATTR_CLASS[(self.cls.__name__, first)]
+            obj = getattr(module(mod2).mod, cname2)
+            names = names[:-1]
         for n in reversed(names):
             try:
                 obj = inspect.getattr_static(obj, n) if obj is self.cls else getattr(obj, n)
@@ -1255,6 +1281,20 @@ class FuncTr:
                     args = self.resolve_callee_args(meths[f.attr][1], e, False)
                     ex = "".join(" " + x for x in self.pass_extra(fn, self.G()))
                     return self.binds(args, lambda a: self.L("%s%s %s" % (fn, ex, " ".join(a))))
+        if isinstance(f, ast.Attribute) and isinstance(f.value, ast.Call) and isinstance(f.value.func, ast.Name) \
+                and f.value.func.id in self.m.imports and len(f.value.args) == 1 \
+                and isinstance(f.value.args[0], ast.Name) and f.value.args[0].id == self.selfname:
+            mod2, name2 = self.m.imports[f.value.func.id]
+            m2 = module(mod2)
+            # the name may be re-exported by a package __init__: find the defining module
+            cls2 = getattr(m2.mod, name2, None)
+            if isinstance(cls2, type) and (cls2.__name__, "dongle") in ATTR_CLASS:
+                meths2 = find_method(cls2)
+                need(f.attr in meths2, "no method %s in %s" % (f.attr, cls2.__name__), e)
+                fn = self.gen.method(cls2, f.attr)
+                args = self.resolve_callee_args(meths2[f.attr][1], e, True)
+                ex = "".join(" " + x for x in self.pass_extra(fn))
+                return self.binds(args, lambda a: "%s%s (VObj \"%s\" []) %s" % (fn, ex, cls2.__name__, " ".join(a)))
         if isinstance(f, ast.Name) and f.id == "bytes" and len(e.args) == 1 and not e.keywords:
             return self.binds(e.args, lambda a: "py_bytes %s" % a[0])
         return None
